@@ -300,7 +300,7 @@ report(const char *clause, const char *shape, const char *fmt, ...)
 }
 
 /* ---------------- events ---------------- */
-enum {E_ADD, E_CANCEL, E_CHKPT, E_LIST, E_SHUTDOWN, E_CANCEL2, E_ADD2};
+enum {E_ADD, E_CANCEL, E_CHKPT, E_LIST, E_SHUTDOWN, E_CANCEL2, E_ADD2, E_ADDNAME};
 struct ev_s {
 	int kind, user, uid, tpl;
 };
@@ -316,6 +316,7 @@ evname(char *b, size_t z, const struct ev_s *e)
 	case E_SHUTDOWN: snprintf(b, z, "SHUTDOWN"); break;
 	case E_CANCEL2: snprintf(b, z, "CANCEL(%u,%s+nonexistent)", users[e->user], uids[e->uid]); break;
 	case E_ADD2: snprintf(b, z, "ADD(%u,%s,%s)+ADD(of a foreign-owned field)", users[e->user], uids[e->uid], tpls[e->tpl].name); break;
+	case E_ADDNAME: snprintf(b, z, "ADD(%u,%s,%s,X-ECHS-OWNER:%s)", users[e->user], uids[e->uid], tpls[e->tpl].name, e->user ? "bob" : "alice"); break;
 	}
 	return b;
 }
@@ -333,6 +334,8 @@ enabled(struct ev_s *ev)
 				ev[n++] = (struct ev_s){E_CANCEL2, u, k, 0};
 			}
 			if (k == 0) ev[n++] = (struct ev_s){E_ADD2, u, k, 0};
+			/* the owner spelled out as the submitter's login name */
+			if (k == 1) ev[n++] = (struct ev_s){E_ADDNAME, u, k, 0};
 		}
 	}
 	return n;
@@ -635,7 +638,7 @@ model_ckpt_users(const struct ev_s *e, int *who)
 static const char*
 evk(const struct ev_s *e)
 {
-	static const char *const k[] = {"ADD", "CANCEL", "CHKPT", "LIST", "SHUTDOWN", "CANCEL2", "ADD2"};
+	static const char *const k[] = {"ADD", "CANCEL", "CHKPT", "LIST", "SHUTDOWN", "CANCEL2", "ADD2", "ADDNAME"};
 	return k[e->kind];
 }
 
@@ -893,9 +896,13 @@ apply_cmd(const struct ev_s *e)
 	evname(name, sizeof(name), e);
 	snprintf(hist + strlen(hist), sizeof(hist) - strlen(hist), "%s%s", hist[0] ? " " : "", name);
 	vd_desc("%s", hist);
-	if (e->kind == E_ADD) {
+	if (e->kind == E_ADD || e->kind == E_ADDNAME) {
 		size_t o = mk_add(req, sizeof(req), uids[e->uid], &tpls[e->tpl]);
 		int ok = !M.cur[e->uid].present || M.cur[e->uid].owner == u;
+		if (e->kind == E_ADDNAME) {
+			o -= strlen("END:VEVENT\nEND:VCALENDAR\n");
+			o += (size_t)snprintf(req + o, sizeof(req) - o, "X-ECHS-OWNER:%s\nEND:VEVENT\nEND:VCALENDAR\n", e->user ? "bob" : "alice");
+		}
 		hx_request(&rp, u, req, o);
 		if (ok) {
 			M.cur[e->uid] = (struct mt_s){1, u, e->tpl};
@@ -1376,6 +1383,64 @@ many_faults(void)
 	VT->traces++;
 }
 
+/* a job is running when its task is cancelled (or not), then the daemon shuts down cleanly: the final checkpoint
+ * must hold exactly what is queued - a cancelled task is gone although its job still runs, a task that goes on
+ * keeps its remaining occurrences */
+static void
+running_job(int cancel)
+{
+	char req[1024], shape[64];
+	struct hx_reply_s rp;
+	struct rs_task_s rs[HX_MAXTASKS];
+	size_t o;
+	int n, before;
+
+	snprintf(hist, sizeof(hist), "ADD(1000,A, every 5 s x3 from +30) ADD(1000,B,oneshot+3600) CHKPT, clock to +30 (A's first job runs on)%s SHUTDOWN", cancel ? ", CANCEL(1000,A)" : "");
+	vd_desc("%s", hist);
+	snprintf(shape, sizeof(shape), "running-job/%s", cancel ? "cancelled" : "goes-on");
+	o = mk_add(req, sizeof(req), "A", &tpls[1]);
+	hx_request(&rp, 1000, req, o);
+	if (rp.nsucc != 1) { report("reply", shape, "task refused"); return; }
+	o = (size_t)snprintf(req, sizeof(req), "BEGIN:VCALENDAR\nVERSION:2.0\nMETHOD:PUBLISH\nBEGIN:VEVENT\nUID:B\nSUMMARY:job-B\nDTSTART:20300101T010000Z\nEND:VEVENT\nEND:VCALENDAR\n");
+	hx_request(&rp, 1000, req, o);
+	if (rp.nsucc != 1) { report("reply", shape, "task refused"); return; }
+	chkpnt();
+	before = hx_nspawns;
+	hx_tick(HX_T0 + 30.001);
+	VT->transitions++;
+	if (hx_nspawns != before + 1) { report("harness", shape, "%d jobs started at +30, expected 1", hx_nspawns - before); return; }
+	if (cancel) {
+		o = (size_t)snprintf(req, sizeof(req), "BEGIN:VCALENDAR\nVERSION:2.0\nMETHOD:CANCEL\nBEGIN:VEVENT\nUID:A\nEND:VEVENT\nEND:VCALENDAR\n");
+		hx_request(&rp, 1000, req, o);
+		VT->transitions++;
+		if (rp.nsucc != 1) { report("reply", shape, "cancel of a task whose job runs is refused"); return; }
+	}
+	chkpnt();
+	VT->transitions++;
+	for (int i = 0; i < HX_NFILES; i++) {
+		if (hx_files[i].live && !strncmp(hx_files[i].name, "echsq_", 6) && !hx_complete_ical(hx_files[i].data, hx_files[i].len)) {
+			report("torn-live", shape, "live file %s is not one complete calendar", hx_files[i].name);
+			return;
+		}
+	}
+	VT->reloads++;
+	n = rs_reload(hx_files, rs);
+	if (n < 0) { report("reload-died", shape, "restart dies loading the spool"); return; }
+	{
+		int hasA = 0, hasB = 0;
+		double atA = 0;
+		for (int j = 0; j < n; j++) {
+			if (!strcmp(rs[j].uid, "A") && rs[j].owner == 1000) hasA = 1, atA = rs[j].at;
+			if (!strcmp(rs[j].uid, "B") && rs[j].owner == 1000) hasB = 1;
+		}
+		if (!hasB) { report("reload-set", shape, "B of user 1000 is missing after restart"); return; }
+		if (cancel && hasA) { report("reload-set", shape, "A was cancelled (acknowledged) while its job ran, the clean shutdown checkpointed, yet a restart schedules A again (for +%.0f)", atA - HX_T0); return; }
+		if (!cancel && (!hasA || atA != HX_T0 + 35)) { report("reload-set", shape, "A has run once and has occurrences at +35 and +40 left; after restart it is %s (armed +%.0f)", hasA ? "scheduled" : "missing", atA - HX_T0); return; }
+		if (n != 1 + !cancel) { report("reload-alien", shape, "restart schedules %d tasks", n); return; }
+	}
+	VT->traces++;
+}
+
 static void
 enumerate(void)
 {
@@ -1445,6 +1510,31 @@ enumerate(void)
 			vd_count("reloads", VT->reloads);
 			vd_nontrivial();
 			vd_sample("3 users x 7 tasks, dump-everybody checkpoint, every spool call failing once: %ld faults judged", VT->faults);
+		}
+		for (int cl = 0; cl < 2; cl++) {
+			if (!vd_next()) continue;
+			vd_shape("running-job/%s", cl ? "cancelled" : "goes-on");
+			memset(VT, 0, sizeof(*VT));
+			fflush(stdout);
+			pid_t c = fork();
+			if (c == 0) {
+				prctl(PR_SET_PDEATHSIG, SIGKILL);
+				running_job(cl);
+				fflush(stdout);
+				_exit(0);
+			}
+			int st;
+			while (waitpid(c, &st, 0) < 0 && errno == EINTR);
+			if (!(WIFEXITED(st) && WEXITSTATUS(st) == 0)) {
+				vd_desc("a job runs, its task is %s, SHUTDOWN", cl ? "cancelled" : "left alone");
+				vd_viol("crash/running-job", "daemon image died (status %#x)", st);
+			}
+			vd_count("states", 1 + VT->transitions);
+			vd_count("transitions", VT->transitions);
+			vd_count("traces", VT->traces);
+			vd_count("reloads", VT->reloads);
+			vd_nontrivial();
+			vd_sample("job of A runs, A %s, clean shutdown, restart", cl ? "cancelled" : "goes on");
 		}
 		for (int n = 15; n <= 18; n++) {
 			for (int cl = 0; cl < 2; cl++) {
